@@ -385,7 +385,7 @@ pub fn mutate(t: &Ty, dice: &[u8]) -> Ty {
     let mut t = t.clone();
     let total = count_nodes(&t);
     let mut idx = (d(0) as usize * total) >> 8;
-    let op = d(1) % 12;
+    let op = d(1) % 14;
     let a = d(2);
     let b = d(3);
     with_node(&mut t, &mut idx, &mut Vec::new(), &mut |node, stack| {
@@ -476,6 +476,45 @@ pub fn mutate(t: &Ty, dice: &[u8]) -> Ty {
                         fields.push((None, leaf_from(b)));
                     } else if !fields.is_empty() {
                         fields.remove(b as usize % fields.len());
+                    }
+                }
+            }
+            // split a tuple variant: a second copy that differs in one field, so that both
+            // variants share their other (possibly union-typed) fields
+            12 | 13 => {
+                let split = |tp: &Ty| -> Option<Ty> {
+                    if let Ty::Tuple { name, fields } = tp
+                        && !fields.is_empty()
+                    {
+                        let j = a as usize % fields.len();
+                        let mut f2 = fields.clone();
+                        let mut nl = leaf_from(b);
+                        if nl == f2[j].1 {
+                            nl = leaf_from(b.wrapping_add(1));
+                        }
+                        f2[j].1 = nl;
+                        Some(Ty::Tuple { name: name.clone(), fields: f2 })
+                    } else {
+                        None
+                    }
+                };
+                match node {
+                    Ty::Union(vs) => {
+                        let cands: Vec<usize> = (0..vs.len()).filter(|i| matches!(&vs[*i], Ty::Tuple { fields, .. } if !fields.is_empty())).collect();
+                        if !cands.is_empty() {
+                            let i = cands[b as usize % cands.len()];
+                            if let Some(copy) = split(&vs[i]) {
+                                vs.insert(i + (a as usize % 2), copy);
+                            }
+                        }
+                    }
+                    other => {
+                        if let Some(mut copy) = split(other) {
+                            let mut inner = other.clone();
+                            shift_escaping(&mut inner, 1, 0);
+                            shift_escaping(&mut copy, 1, 0);
+                            *other = if a % 2 == 0 { Ty::Union(vec![inner, copy]) } else { Ty::Union(vec![copy, inner]) };
+                        }
                     }
                 }
             }
